@@ -1488,7 +1488,25 @@ callf:
 // Deprecated: Use FunCallContext for cancellation and timeout support.
 func (env *LEnv) FunCall(fun, args *LVal) *LVal {
 	defer env.Runtime.beginEval()()
-	return env.funCall(env.evalCtx, fun, args)
+	return env.funCall(env.evalCtx, fun, ownedArgs(args))
+}
+
+// ownedArgs returns the argument list of a call started by the host in a form
+// the callee may keep.  A &rest parameter is bound to a header over the
+// argument cells, which the callee is free to sort or append to.  The
+// evaluator, apply and the other builtins always pass cells they allocated,
+// but an embedder may hand back a list it received from an evaluation -- the
+// Go spelling of (apply f lis) -- and a quoted literal shares its cells with
+// the parsed program: (stable-sort < xs) in f then rewrote the program for
+// every later load.  Such a list is copied.
+func ownedArgs(args *LVal) *LVal {
+	if args == nil || !args.sealed {
+		return args
+	}
+	cp := *args
+	cp.sealed = false
+	cp.Cells = append(make([]*LVal, 0, len(args.Cells)), args.Cells...)
+	return &cp
 }
 
 // EvalContext evaluates v with the given context.  If ctx is cancelled or
@@ -1551,7 +1569,7 @@ func (env *LEnv) LoadLocationContext(ctx context.Context, name, loc string, r io
 // a CondContextCancelled error is returned.
 func (env *LEnv) FunCallContext(ctx context.Context, fun, args *LVal) *LVal {
 	defer env.Runtime.beginEval()()
-	return env.funCall(ctx, fun, args)
+	return env.funCall(ctx, fun, ownedArgs(args))
 }
 
 func (env *LEnv) trace(fun *LVal) func() {
